@@ -83,7 +83,10 @@ def scenarios(ctx: Ctx, backend: str) -> List[Scenario]:
     S.append(Scenario(backend, "d_values_are_taken_verbatim", [inv(["-c"]), inv(["-r", "-d", "root://eospublic.cern.ch//eos/opendata/f.root"]), inv(["-r", "-d", "https://host.example/data/x.root"]),
                                                                inv(["-r", "-d", "relative/dir/x.root"]), inv(["-r", "-d", "/data/abs.root"]), inv(["-r", "-d", "file:///data/u.root"]),
                                                                inv(["-r", "-d", "/data/DAOD_PHYS%2Fpart.0001.root"]), inv(["-r", "-d", "/data/a%20b%_c.root"]), inv(["-r", "-d", "/data/back\\slash\\n.root"]),
-                                                               inv(["-r", "-d", "/data/-n"]), inv(["-r", "-d", "/data/dollar$HOME.root"])], **base))
+                                                               inv(["-r", "-d", "/data/-n"]), inv(["-r", "-d", "/data/dollar$HOME.root"]),
+                                                               # characters the shell would expand or squeeze: the value is a file NAME
+                                                               inv(["-r", "-d", "/data/two  blanks.root"]), inv(["-r", "-d", "/data/run[1].root"], mkfiles=["/data/run1.root", "/data/run[1].root"]),
+                                                               inv(["-r", "-d", "/data/*.root"], mkfiles=["/data/x.root", "/data/y.root"]), inv(["-r", "-d", "/data/a?.root"], mkfiles=["/data/ab.root"])], **base))
     # -o names a FILE that already exists (left by an earlier job / by someone else): it is replaced by this run's output
     S.append(Scenario(backend, "output_file_already_exists", [inv(["-o", "/results/pre.root"], prepopulate="/results/pre.root"),
                                                               inv(["-r", "-d", "/data/b.root", "-o", "/results/pre.root"]),
@@ -240,6 +243,10 @@ def run_scenario(item) -> Dict[str, Any]:
         for i, step in enumerate(sc.steps):
             for d in step.get("mkdirs", []):
                 (cont.root / d.lstrip("/")).mkdir(parents=True, exist_ok=True)
+            for f in step.get("mkfiles", []):
+                pf = cont.root / f.lstrip("/")
+                pf.parent.mkdir(parents=True, exist_ok=True)
+                pf.write_text("data")
             if step.get("prepopulate"):
                 p = cont.root / step["prepopulate"].lstrip("/")
                 p.parent.mkdir(parents=True, exist_ok=True)
